@@ -16,7 +16,8 @@ RULE = ("typeddata.hash(json) events on random well-typed documents (1..8 struct
         "type parse/print image; distinct = distinct documents; non-trivial = three digests compared")
 REQUIRED = (["digests-equal", "repeat-before", "repeat-between", "repeat-after", "recursive-primary", "shared-dependency(diamond)",
              "negative-int", "array-multidim", "array-fixed", "array-of-structs", "struct-name-atom-lookalike", "deps>=3",
-             "primary-not-first-in-name-order", "dep-sorts-before-primary", "empty-struct", "hook-encode-type-equal", "hook-member-kind"]
+             "primary-not-first-in-name-order", "dep-sorts-before-primary", "empty-struct",
+             "dep-name-is-prefix-of-another(sorts-differently-when-rendered)", "sibling-document(same-signatures-one-dependency-changed)", "hook-encode-type-equal", "hook-member-kind"]
             + ["atom-" + a for a in ("bool", "address", "string", "bytes", "bytesN", "uint", "int")]
             + ["domain-fields-%d" % k for k in range(1, 6)])
 LOOKALIKES = {"bytes0", "uint9", "int264", "bytes33", "uint320", "uint256x", "int7", "bytes64"}
@@ -31,6 +32,11 @@ def _features(v, types, primary):
         for _, ts in types[n]:
             if eip712.struct_ref(ts) == primary:
                 v.bucket("recursive-primary")
+    dl = sorted(deps)
+    for a in dl:
+        for b in dl:
+            if a != b and b.startswith(a) and b[len(a)] < "(":
+                v.bucket("dep-name-is-prefix-of-another(sorts-differently-when-rendered)")
     if deps:
         names = sorted(deps | {primary}, key=lambda s: s.encode())
         if names[0] != primary:
@@ -181,6 +187,13 @@ def gen(shard, rng, tier):
                     others_after = any(m != dep for m in ms[last + 1:])
                     tags.append("repeat-between" if (others_before and others_after) else "repeat-after" if others_before else "repeat-before")
             yield from both(_hash_case(text, shape or "random", tags))
+            if i % 4 == 0:
+                # a sibling document right after it in the same server processes: same struct signatures, one dependency changed
+                sib = tdgen.sibling_document(rng, info)
+                if sib:
+                    yield from both(_hash_case(sib[0], "sibling", ["sibling-document(same-signatures-one-dependency-changed)"]))
+                    # ... and back to the first one
+                    yield from both(_hash_case(text, shape or "random", tags))
     elif name == "domains":
         dom = '"EIP712Domain":[{"name":"name","type":"string"}]'
         for n in (255, 256, 257, 1000):
